@@ -376,8 +376,8 @@ class Sweep:
           e += kk * p
           bounds |= {e - 1, e}
       pts = sorted(set(p for p in pts if p >= 0) | set(p for p in bounds if p >= 0))
-      if quick and len(pts) > 24:
-        keep = set(rng.choice(pts, 24, replace=False).tolist()) | {nnz - 1, nnz, 0}
+      if quick and len(pts) > 16:
+        keep = set(rng.choice(pts, 16, replace=False).tolist()) | {nnz - 1, nnz, 0}
         pts = sorted(p for p in pts if p in keep)
       for z in pts:
         settings.append((rows + 1, z))
@@ -476,6 +476,61 @@ class Sweep:
     return True
 
 
+FLEXSTRAIN_XML = """<mujoco><option jacobian="%s"/><worldbody>
+<flexcomp type="grid" count="3 3 3" spacing="0.1 0.1 0.1" pos="0 0 0.5" name="cube" dim="3" mass="1" radius="0.005" dof="trilinear">
+<contact selfcollide="none"/><edge equality="strain"/></flexcomp></worldbody></mujoco>"""
+
+
+def jtdaj_block_cases(res, rng):
+  """Newton block list of make_constraint (efc_jtdaj_adr/nrow, sparse only): on the real code the
+  blocks must partition the rows [0, nefc) -- every builder registers exactly the rows it allocated.
+  For the flexstrain model also: sparse Newton must agree with dense Newton."""
+  import mujoco
+
+  import mujoco_warp as mjw
+
+  viol = []
+  models = [(label, _mk(xml, qset, True)) for label, (xml, qset) in DIRECTED.items()]
+  try:
+    fm = mujoco.MjModel.from_xml_string(FLEXSTRAIN_XML % "sparse")
+    fq = mujoco.MjData(fm).qpos.astype(np.float32) + rng.normal(0, 0.02, fm.nq).astype(np.float32)
+    models.append(("_equality_flexstrain", (fm, fq, np.zeros(fm.nv, np.float32))))
+  except Exception:  # this mujoco build cannot load the model: nothing to check
+    fm = None
+  for label, (m, qpos, qvel) in models:
+    R = Real(m, qpos, qvel)
+    if not hasattr(R.mm.opt, "solver") or int(m.opt.solver) != int(mujoco.mjtSolver.mjSOL_NEWTON):
+      continue
+    d = R._data(BIG_J * 4, BIG_NNZ * 4, BIG_CON)
+    mjw.fwd_position(R.mm, d)
+    nefc = int(d.nefc.numpy()[0])
+    nb = int(d.efc.jtdaj_nblock.numpy()[0])
+    adr = d.efc.jtdaj_adr.numpy()[0, :nb].astype(int)
+    nr = d.efc.jtdaj_nrow.numpy()[0, :nb].astype(int)
+    cover = np.zeros(max(nefc, int((adr + nr).max()) if nb else 0), int)
+    for a, n in zip(adr, nr):
+      cover[a : a + n] += 1
+    res.count()
+    res.nontrivial(("jtdaj", label, nefc, nb))
+    if not (len(cover) == nefc and np.all(cover == 1)):
+      data = {"label": label, "nefc": nefc, "nblock": nb, "adr": adr[:12].tolist(), "nrow": nr[:12].tolist(), "max_adr_plus_nrow": int((adr + nr).max())}
+      if label == "_equality_flexstrain":
+        q = {}
+        for jac in ("dense", "sparse"):
+          mj = mujoco.MjModel.from_xml_string(FLEXSTRAIN_XML % jac)
+          Rj = Real(mj, qpos, qvel)
+          q[jac] = Rj.step(BIG_J * 4, BIG_NNZ * 4, BIG_CON)["qacc"]
+        data.update({"xml": FLEXSTRAIN_XML % "sparse", "qpos": [float(v) for v in qpos], "qacc_sparse_newton": q["sparse"].tolist()[:8], "qacc_dense_newton": q["dense"].tolist()[:8], "max_abs_diff": float(np.max(np.abs(q["sparse"] - q["dense"])))})
+        if close(q["sparse"], q["dense"]):
+          continue  # blocks overlap but the result is unaffected: not reported
+      viol.append((
+        f"C16:jtdaj-block-exceeds-allocation:{label}",
+        f"Newton block list claims rows that were not allocated to it (blocks do not partition the {nefc} rows: max adr+nrow = {data['max_adr_plus_nrow']})" + (f"; sparse Newton qacc differs from dense Newton by {data.get('max_abs_diff', 0):.3g}" if "max_abs_diff" in data else ""),
+        data,
+      ))
+  return viol
+
+
 def compact_dofs_cases(res, rng, n):
   """Real island._compact_dofs kernel vs the model (serial counter, NVMAX flag)."""
   import warp as wp
@@ -561,9 +616,10 @@ def model_specs(tier):
   for label in DIRECTED:
     for sparse in (False, True):
       specs.append(("directed", label, sparse))
-  for k in range(22 if tier == "quick" else 220):
+  for k in range(12 if tier == "quick" else 220):
     specs.append(("random", k, None))
   specs.append(("cdof", 0, None))
+  specs.append(("blocks", 0, None))
   return specs
 
 
@@ -598,6 +654,10 @@ def worker_main(jobpath):
     if kind == "cdof":
       lines, meta, viol = compact_dofs_cases(acc, rng, 12 if quick else 120)
       emit("M", idx, {"label": "cdof", "defs": [], "lines": lines, "meta": meta, "fails": [], "viol": viol, "evals": acc.evals, "keys": acc.keys, "accepted": True, "skipped": 0})
+      continue
+    if kind == "blocks":
+      viol = jtdaj_block_cases(acc, rng)
+      emit("M", idx, {"label": "blocks", "defs": [], "lines": [], "meta": [], "fails": [], "viol": viol, "evals": acc.evals, "keys": acc.keys, "accepted": True, "skipped": 0})
       continue
     if kind == "directed":
       xml, qset = DIRECTED[a]
@@ -712,6 +772,10 @@ def run(res):
       res.extra["wf_verdicts"] = verd
       res.extra["nnz_fix"] = skel.host.get("nnz_fix")
       res.obligation("regenerated overflow probes equal the probes the model of _next_time copies", verd["probes_ok"], json.dumps(skel.probes)[:600])
+      badblk = [b["name"] for b in skel.builders if not b.get("block_ok", True)]
+      res.extra["jtdaj_block_rows_mismatch"] = badblk
+      if badblk:
+        res.notes.append(f"extracted skeleton: {badblk} register a Newton block (efc_jtdaj_nrow) whose row count differs from the rows they allocate; checked on the real code by the block-partition cases")
       res.obligation("safe_builder holds for every regenerated builder (alloc_in_bounds applies)", all(verd["safe"].values()), str([k for k, v in verd["safe"].items() if not v]))
   # ---- correspondence + oracle on the real code (worker subprocess) ----
   t0 = time.time()
@@ -818,6 +882,15 @@ def replay1(path):
 
   wp.config.log_level = 30
   r = json.load(open(path))["replay"]
+  if "qacc_dense_newton" in r:  # Newton block list finding: sparse Newton vs dense Newton on the same model
+    q = {}
+    for jac in ("dense", "sparse"):
+      mj = mujoco.MjModel.from_xml_string(r["xml"].replace('jacobian="sparse"', f'jacobian="{jac}"'))
+      q[jac] = Real(mj, np.array(r["qpos"], np.float32), np.zeros(mj.nv, np.float32)).step(BIG_J * 4, BIG_NNZ * 4, BIG_CON)["qacc"]
+    print("qacc dense  Newton:", q["dense"][:6], "\nqacc sparse Newton:", q["sparse"][:6], "\nmax |diff|:", float(np.max(np.abs(q["dense"] - q["sparse"]))))
+    bad = not close(q["sparse"], q["dense"])
+    print("VIOLATION reproduced" if bad else "not reproduced")
+    return 1 if bad else 0
   m = mujoco.MjModel.from_xml_string(r["xml"])
   m.opt.jacobian = mujoco.mjtJacobian.mjJAC_SPARSE if r["sparse"] else mujoco.mjtJacobian.mjJAC_DENSE
   m.opt.cone = r.get("cone", int(m.opt.cone))
